@@ -400,9 +400,7 @@ func (c *Commission) get(height uint64) []*Model {
 		vote.height = height
 	}
 
-	c.setToMap(height, voteBlock)
-
-	return voteBlock
+	return c.setToMapIfAbsent(height, voteBlock)
 }
 
 func (c *Commission) markDirty(height uint64) func() {
@@ -471,6 +469,20 @@ func (c *Commission) setToMap(height uint64, model []*Model) {
 	defer c.lock.Unlock()
 
 	c.list[height] = model
+}
+
+// setToMapIfAbsent caches votes that were just loaded from the tree and returns the cached ones: a
+// concurrent read-only query must not replace the models block execution is already working on.
+func (c *Commission) setToMapIfAbsent(height uint64, model []*Model) []*Model {
+	c.lock.Lock()
+	defer c.lock.Unlock()
+
+	if cached := c.list[height]; cached != nil {
+		return cached
+	}
+
+	c.list[height] = model
+	return model
 }
 
 func getPath(height uint64) []byte {
